@@ -906,6 +906,12 @@ theorem C17f_subtype_partial {p : OType} {pre : List Level} (hp : p ≠ [])
     rw [isAssignableF_of_not_interface hf hne]
     exact isAssignable_suffix hp ⟨pre, rfl⟩
 
+/-- every type accepts itself, interface or not -/
+theorem C17f_reflexive {t : OType} (ht : t ≠ []) (hnd : ∀ l ∈ t, (l.funcs.map (·.name)).Nodup) :
+    isAssignableF t t = true := by
+  have := C17f_subtype_partial (p := t) (pre := []) ht hnd (fun _ l hl => by simp at hl)
+  simpa using this
+
 def lvI : Level :=
   { id := 0, attrs := [], equality := none, includeType := true, serialization := none,
     funcs := [{ name := "fx", ret := .any }] }
